@@ -204,6 +204,12 @@ def join_byte_intervals(
                     if aux_data and bi in aux_data:
                         table[bi] = aux_data[bi]
             if len(table) > 0:
+                # The destination needs an entry backed by the aux data, or
+                # the items moved into it would be lost.
+                dest = intervals[0]
+                if dest not in table and dest.module is not None:
+                    aux_data = table_def.get_or_insert(dest.module)
+                    table[dest] = aux_data.setdefault(dest, {})
                 tables.append(table)  # type: ignore # per above this is hacky
 
     destination = intervals[0]
